@@ -317,7 +317,7 @@ func RunProperty(id, tier string, seed uint64, replayPath string) int {
 		tmpRoot = filepath.Join(os.TempDir(), fmt.Sprintf("semaverif.%s.%d", id, os.Getpid()))
 	}
 	os.MkdirAll(tmpRoot, 0o755)
-	defer os.RemoveAll(tmpRoot)
+	defer RemoveAllScratch(tmpRoot)
 
 	known, err := LoadKnown(filepath.Join(vdir, "KNOWN_FINDINGS.jsonl"))
 	if err != nil {
@@ -554,7 +554,7 @@ func runChild(p Property, c Case, exe, tmpRoot, tier string) (*CaseResult, bool)
 	os.MkdirAll(dir, 0o755)
 	defer func() {
 		if os.Getenv("VERIF_KEEP") == "" {
-			os.RemoveAll(dir)
+			RemoveAllScratch(dir)
 		}
 	}()
 	caseFile := filepath.Join(dir, "case.json")
@@ -758,7 +758,7 @@ func WorkerMain(caseFile, resFile string) int {
 	env := &Env{Dir: os.Getenv("VERIF_WORKDIR"), Exe: exe}
 	if env.Dir == "" {
 		env.Dir, _ = os.MkdirTemp("", "semaverif-worker")
-		defer os.RemoveAll(env.Dir)
+		defer RemoveAllScratch(env.Dir)
 	}
 	res := p.RunCase(c, env)
 	for _, f := range AtWorkerExit {
